@@ -15,11 +15,12 @@
     What is missing for the full statement is fingerprint soundness of every inner expression ("equal
     fingerprints ⇒ equal outcomes"): it fails at the catch positions of `coalesce` and `switch` (known
     findings F18, F19) and for brace re-substitution (F22) — the negation of the full statement is proved
-    below from concrete histories, and `CacheTransparency.lean` proves the full statement under exactly that
-    hypothesis.
+    below from concrete histories, and `LabreaModel/CacheTransparency.lean` proves the full statement under exactly
+    that hypothesis (`cache_transparent_of_fingerprint_sound`, for all histories, by an invariant on the store).
 -/
 import LabreaModel.CacheLemmas
 import LabreaModel.EvalLemmas
+import LabreaModel.CacheTransparency
 namespace Labrea
 
 variable (env : Env) (run : Run) (x : Expr) (c : Nat) (o : V)
@@ -130,5 +131,81 @@ theorem c01_good_history :
       (fun r => match r with | some (.ok v) => some v | _ => Option.none)
     = [some (.int 1), some (.int 2), some (.dict [("X", .int 1)]), some (.dict [("X", .int 1), ("Y", .int 2)])] := by
   decide +kernel
+
+
+/-! ### The full statement, reduced to fingerprint soundness -/
+
+/-- **cache_transparent_of_fingerprint_sound.** Let `x` be a node cached in a `MemoryCache`, with caching switched on,
+    whose `keys()` succeed on the dictionaries `D` of a history with fingerprint `fp o`, whose uncached outcome is
+    `den o`, and whose sub-computations leave the entries of its cache alone.  If equal fingerprints imply equal
+    outcomes, then after ANY finite history of evaluations on dictionaries of `D` — any order, any repetitions, one
+    long-lived store that satisfied the invariant at the start (e.g. was empty) — the next evaluation returns `den o`:
+    exactly what evaluation with caching switched off returns.  "Regardless of what was evaluated earlier" is the
+    quantification over `hist`. -/
+theorem cache_transparent_of_fingerprint_sound {env : Env} {run : Run} {x : Expr} {c : Nat} {D : V → Prop}
+    {fp : V → V} {den : V → Except Err V} (H : FingerprintSound env run x c D fp den)
+    (hist : List V) (hD : ∀ o ∈ hist, D o) (s : St) (hempty : s.cacheEntries c = [])
+    (o : V) (ho : D o) (s1 : St)
+    (hs : (hist.foldl (fun (st : Option St) oi => st.bind fun t =>
+        (cachedOp env run x c .evaluate oi t).map Prod.snd) (some s)) = some s1)
+    (r : Except Err V) (s2 : St) (h : cachedOp env run x c .evaluate o s1 = some (r, s2)) : r = den o :=
+  cached_history_transparent H hist hD s (storeInv_empty c D fp den s hempty) o ho s1 hs r s2 h
+
+/-! non-vacuity: the hypotheses hold of a real node under the real interpreter — `cached(Option('A'))` on the
+    dictionaries `{'A': i}`, any fuel ≥ 3, every state -/
+namespace C01NonVacuity
+def c01tEnv : Env :=
+  { β := fun f a k => .ok (.app f a k), binds := fun _ _ => .error "x", ov := fun _ => default, ds := fun _ => default,
+    cacheKind := fun _ => .memory }
+def oA (i : Int) : V := .dict [("A", .int i)]
+def xA : Expr := .option 1 "A" Option.none Option.none
+theorem sk1 : splitKey "LABREA.CACHE.DISABLED" = ["LABREA", "CACHE", "DISABLED"] := by decide +kernel
+theorem sk2 : splitKey "LABREA.CACHE.DISABLE" = ["LABREA", "CACHE", "DISABLE"] := by decide +kernel
+theorem sk3 : splitKey "A" = ["A"] := by decide +kernel
+theorem si1 : segIndex? "LABREA" = none := by decide +kernel
+theorem si2 : segIndex? "A" = none := by decide +kernel
+theorem gd1 (i : Int) : getDotted "LABREA.CACHE.DISABLED" (oA i) = .keyErr := by
+  simp [getDotted, oA, sk1, walk, step, si1, alookup]
+theorem gd2 (i : Int) : getDotted "LABREA.CACHE.DISABLE" (oA i) = .keyErr := by
+  simp [getDotted, oA, sk2, walk, step, si1, alookup]
+theorem gd3 (i : Int) : getDotted "A" (oA i) = .found (.int i) := by
+  simp [getDotted, oA, sk3, walk, step, si2, alookup]
+
+theorem cd1 (i : Int) (n : Nat) (s : St) : ∃ s', cacheDisabled c01tEnv (ev c01tEnv (n + 3)) (oA i) s = some (.ok false, s') ∧ s'.E 0 = s.E 0 := by
+  simp only [cacheDisabled, c01tEnv, Bool.false_eq_true]
+  simp [ev, cacheDisabledOption, optFalse, nodeOp, optionOp, readKey, bind_run, emit_run, pure_run, gd1, gd2, wrapEvaluate, handle, V.truthy]
+  rfl
+
+theorem in1 (i : Int) (n : Nat) (s : St) : ∃ s', ev c01tEnv (n + 3) .evaluate xA (oA i) s = some (.ok (.int i), s') ∧ s'.E 0 = s.E 0 := by
+  simp [ev, xA, c01tEnv, nodeOp, optionOp, readKey, bind_run, emit_run, pure_run, gd3, wrapEvaluate, handle, resolveM, resolveR, emitAll]
+  rfl
+
+theorem fp1 (i : Int) (n : Nat) (s : St) : ∃ s', fingerprintOf (ev c01tEnv (n + 3)) xA (oA i) s = some (.ok (.list [.dict [("A", .int i)]]), s') ∧ s'.E 0 = s.E 0 := by
+  simp [fingerprintOf, ev, xA, c01tEnv, nodeOp, optionOp, existsKey, getKey, readKey, bind_run, emit_run, pure_run, gd3, templatedStrings, mapM',
+    unionAll, unionV, unionKeys, keySet, dedup, V.setElems, keyStrings, sortStrings, insertSorted]
+  simp [fpItems, getKey, readKey, bind_run, emit_run, pure_run, gd3]
+  rfl
+
+def vA (o : V) : V := match getDotted "A" o with | .found v => v | _ => .none
+
+theorem optionA_fingerprint_sound (n : Nat) :
+    FingerprintSound c01tEnv (ev c01tEnv (n + 3)) xA 0 (fun o => ∃ i, o = oA i)
+      (fun o => .list [.dict [("A", vA o)]]) (fun o => .ok (vA o)) where
+  memory := rfl
+  enabled := by rintro o ⟨i, rfl⟩ s; exact cd1 i n s
+  fingerprint := by
+    rintro o ⟨i, rfl⟩ s
+    have : vA (oA i) = .int i := by simp [vA, gd3]
+    rw [this]; exact fp1 i n s
+  inner := by
+    rintro o ⟨i, rfl⟩ s
+    have : vA (oA i) = .int i := by simp [vA, gd3]
+    rw [this]; exact in1 i n s
+  sufficient := by
+    rintro o o' _ _ h
+    simp only [V.list.injEq, List.cons.injEq, V.dict.injEq, Prod.mk.injEq, true_and, and_true] at h
+    rw [h]
+
+end C01NonVacuity
 
 end Labrea
